@@ -83,7 +83,7 @@ def run_deserialize(ctx: bridge.Ctx, tp: Any, data: Any, kwargs: dict, method: b
 
 def has_foreign(v: Any) -> bool:
     if isinstance(v, dict):
-        if v.get("k") in ("foreign", "missingattr"):
+        if v.get("k") == "foreign":
             return True
         return any(has_foreign(x) for x in v.values())
     if isinstance(v, list):
